@@ -78,8 +78,12 @@ def _deal(owner, empty, dtype, stats=None):
     hands = [sorted(c for c in range(52) if owner[c] == s) for s in range(4)]
     if sum(len(h) for h in hands[:2]) % 8 == 0:
         be.stir(len(hands[0]))       # unrelated library activity (random deals, plays, formats) in between
-    H = be.hands_from_owner(owner)
+    how = (sum(hands[0]) + 3 * len(hands[1]) + len(empty)) % 12
+    how = how if how < len(be.HOW) else 0
+    H = be.hands_from_owner(owner, how)
     base = {'deal': {A.SEATS[s]: PL.fmt_cards(hands[s]) for s in range(4)}}
+    if how:
+        base['deal_object_made_by'] = be.HOW[how]
     for first in range(4):
         case = dict(base, first=A.SEATS[first])
         text = guard('to_pbn raises', case, H.to_pbn, be.SEAT[first])
@@ -131,6 +135,7 @@ def _deal(owner, empty, dtype, stats=None):
     if stats is not None:
         stats.evaluated(4)
         stats.cls('partial deals' if empty else 'full deals')
+        stats.cls('deal object made by: ' + be.HOW[how])
         stats.cls(f'dtype {dtype}')
         for f in PL.deal_features([o if o is not None else 0 for o in owner]) if not empty else ():
             stats.cls('deal with ' + f)
